@@ -166,6 +166,13 @@ func (h *Handler) Handle(cx *layer4.Connection, next layer4.Handler) error {
 	// Set conn as a custom variable on cx.
 	cx.SetVar("l4.proxy_protocol.conn", conn)
 
+	// the address placeholders were filled in when the connection was accepted;
+	// they must show the addresses received by PROXY protocol from now on
+	if repl, ok := cx.Context.Value(layer4.ReplacerCtxKey).(*caddy.Replacer); ok {
+		repl.Set("l4.conn.remote_addr", conn.RemoteAddr())
+		repl.Set("l4.conn.local_addr", conn.LocalAddr())
+	}
+
 	return next.Handle(cx.Wrap(halfCloser{Conn: conn, under: cx}))
 }
 
